@@ -9,7 +9,7 @@ from adcgen import Expr
 from adcgen.indices import (Indices, Index, get_symbols, order_substitutions,
                             get_lowest_avail_indices)
 from adcgen.misc import Singleton
-from adcgen.sympy_objects import KroneckerDelta
+from adcgen.sympy_objects import KroneckerDelta, AntiSymmetricTensor
 
 from ..gen import (Cfg, st_expr_case, build_term, sym, syms, label_class,
                    parse_label, BadCase, sort_labels, rebuild, label_of,
@@ -145,6 +145,14 @@ def run_map(case, r):
             g_t = Expr(t).subs(sub).sympy
             e_t = rebuild(t, mp)
             if g_t == e_t:
+                continue
+            if g_t == -e_t and any(
+                    getattr(x, "bra_ket_sym", 0) == -1 and
+                    tuple(x.upper) == tuple(x.lower)
+                    for x in S(e_t).atoms(AntiSymmetricTensor)):
+                # T^{x}_{x} of a bra-ket antisymmetric tensor vanishes; the
+                # objects keep it with a path dependent sign (cf. C06)
+                r.excluded.append("braket_antisym_diagonal_sign")
                 continue
             if g_t == 0 and cross and t.atoms(KroneckerDelta):
                 r.excluded.append("cross_space_map_through_zero_delta")
